@@ -2,7 +2,7 @@
 import vlib
 from props import p2common
 
-PREFIXES = ['c01_']
+PREFIXES = ['c01_', 'c08_success_before_stage']  # 'reported as failed': the answer of the Set against the transaction's end
 
 
 def run(ctx):
